@@ -694,14 +694,31 @@ fn tracked_geometry(size: usize) -> (usize, usize, usize) {
         1 => ps * (1 + c.a(3) as usize),
         _ => 1 + c.a(200) as usize,
     };
+    // now and then the view sits beyond 4 GiB of the tracked object (a window into a large region):
+    // large pages keep the bitmap small
+    let (ps, base_off) = if c.a(40) == 0 {
+        c.count("probe.tracked_view_based_beyond_4_gib");
+        let ps = [1usize << 16, 1 << 20, (1 << 16) + 4096][c.a(3) as usize];
+        (ps, (1usize << 32) + [0usize, 1, 4096, 65535, 65536, 0x7010][c.a(6) as usize] + (c.a(3) as usize) * (1 << 32))
+    } else {
+        (ps, base_off)
+    };
     let cover = base_off + size + c.a(2 * ps.min(300) as u32) as usize;
     (ps, base_off, cover)
+}
+
+fn tracked_bitmap(cover: usize, ps: usize) -> AtomicBitmap {
+    if cover > u32::MAX as usize {
+        AtomicBitmap::new(cover, std::num::NonZeroUsize::new(ps).unwrap())
+    } else {
+        crate::world::grown_bitmap(cover, ps)
+    }
 }
 
 fn new_tracked<BS: BitmapSlice>(rid: u32, flavour: &'static str, mk: impl Fn(&'static AtomicBitmap, usize) -> BS) -> Cont<BS> {
     let plain = new_arena_cont(rid);
     let (ps, base_off, cover) = tracked_geometry(plain.size);
-    let bitmap = Arc::new(crate::world::grown_bitmap(cover, ps));
+    let bitmap = Arc::new(tracked_bitmap(cover, ps));
     // SAFETY: the Arc is kept in the container's Track for the whole run.
     let bref: &'static AtomicBitmap = unsafe { &*Arc::as_ptr(&bitmap) };
     // SAFETY: arena memory outlives the container.
@@ -712,7 +729,7 @@ fn new_tracked<BS: BitmapSlice>(rid: u32, flavour: &'static str, mk: impl Fn(&'s
 fn new_tracked_arc(rid: u32) -> Cont<ArcSlice<AtomicBitmap>> {
     let plain = new_arena_cont(rid);
     let (ps, base_off, cover) = tracked_geometry(plain.size);
-    let bitmap = Arc::new(crate::world::grown_bitmap(cover, ps));
+    let bitmap = Arc::new(tracked_bitmap(cover, ps));
     // SAFETY: arena memory outlives the container.
     let base = unsafe { VolatileSlice::with_bitmap(plain.ptr, plain.size, ArcSlice::new(bitmap.clone(), base_off), None) };
     Cont { ptr: plain.ptr, size: plain.size, rid, model: plain.model, arena: plain.arena, region: None, base, track: Some(Track { bitmap, base_off, ps, flavour: "ArcSlice" }) }
